@@ -77,6 +77,8 @@ pub fn dump_case(id: &str, c: &compiler::pipeline::pipeline::Compilation, out: &
     writeln!(out, "{}\tAANF\t{}", id, crate::gocomp::anf_annot(&c.anf).to_text()).unwrap();
     // input of the composite middle-end model (C01 pipeline composition): the type definitions of `genv`
     writeln!(out, "{}\tGENV\t{}", id, tagged("genv", vec![crate::c07::enums_s(c.genv.enums()), crate::c07::structs_s(c.genv.structs())]).to_text()).unwrap();
+    // input of the type-soundness oracle (`gomlmodel tsound`): builtin / extern schemes and trait definitions of `genv`
+    writeln!(out, "{}\tSIG\t{}\t{}", id, crate::c03::builtins_s(&c.genv).to_text(), crate::c03::traits_s(&c.genv).to_text()).unwrap();
     // the printer tie: what the user runs is the printed text
     let text = c.go.to_pretty(&c.goenv, 120);
     let erased = crate::goparse::erase_file(&c.go);
